@@ -309,6 +309,13 @@ pub fn scan<M: Machine>(m: M, sc: &mut Scan) {
             let s: vec128_storage = from(&a).into();
             let q: [u64; 2] = s.into();
             neq("storage as [u64;2]", &L::from_u64s(&q), &a)?;
+            // storage equality is equality of the 128 bits; the default storage is all-zero
+            let mut o = a.clone();
+            o[i % 16] ^= 1 << (i % 8);
+            if !(s == s128(&a)) || s == s128(&o) {
+                return Err(format!("vec128_storage == is not bytewise equality for {}", hex(&a)));
+            }
+            neq("default storage", &b128(vec128_storage::default()), &[0u8; 16])?;
             storage128_extra(&a, s)
         });
     }
@@ -434,6 +441,12 @@ pub fn scan<M: Machine>(m: M, sc: &mut Scan) {
             let s2: vec256_storage = from(&a).into();
             let q: [u64; 4] = s2.into();
             neq("storage as [u64;4]", &L::from_u64s(&q), &a)?;
+            let mut o = a.clone();
+            o[i % 32] ^= 1 << (i % 8);
+            if !(s2 == s256(&a)) || s2 == s256(&o) {
+                return Err(format!("vec256_storage == is not bytewise equality for {}", hex(&a)));
+            }
+            neq("default storage", &b256(vec256_storage::default()), &[0u8; 32])?;
             storage256_extra(&a, s2)
         });
     }
@@ -480,6 +493,18 @@ pub fn scan<M: Machine>(m: M, sc: &mut Scan) {
             neq("vec([u32x4;4])", &to(v), &a)?;
             let g: Vec<u8> = from(&a).to_lanes().iter().flat_map(|l| eto(*l)).collect();
             neq("to_lanes", &g, &a)
+        });
+        sc.check("C13", "u32x4x4", "storage", cnt, &|i, r, salt| {
+            let a = operand(r, i, 64, salt);
+            let s: vec512_storage = from(&a).into();
+            neq("Into<vec512_storage> then split128", &b512(s), &a)?;
+            let mut o = a.clone();
+            o[i % 64] ^= 1 << (i % 8);
+            if !(s == s512(&a)) || s == s512(&o) {
+                return Err(format!("vec512_storage == is not bytewise equality for {}", hex(&a)));
+            }
+            neq("default storage", &b512(vec512_storage::default()), &[0u8; 64])?;
+            storage512_extra(&a, s)
         });
         sc.check("C13", "u32x4x4", "to_scalars", cnt, &|i, r, salt| {
             let a = operand(r, i, 64, salt);
@@ -545,7 +570,22 @@ pub fn scan<M: Machine>(m: M, sc: &mut Scan) {
 #[cfg(all(not(feature = "portable"), not(miri)))]
 fn storage128_extra(a: &[u8], s: vec128_storage) -> Result<(), String> {
     let o: [u128; 1] = s.into();
-    neq("storage as [u128;1]", &L::from_u128s(&o), a)
+    neq("storage as [u128;1]", &L::from_u128s(&o), a)?;
+    let r: &[u32; 4] = (&s).into();
+    neq("&storage as &[u32;4]", &L::from_u32s(r), a)
+}
+#[cfg(all(not(feature = "portable"), not(miri)))]
+fn storage512_extra(a: &[u8], s: vec512_storage) -> Result<(), String> {
+    let d: [u32; 16] = s.into();
+    neq("storage as [u32;16]", &L::from_u32s(&d), a)?;
+    let q: [u64; 8] = s.into();
+    neq("storage as [u64;8]", &L::from_u64s(&q), a)?;
+    let o: [u128; 4] = s.into();
+    neq("storage as [u128;4]", &L::from_u128s(&o), a)
+}
+#[cfg(any(feature = "portable", miri))]
+fn storage512_extra(_a: &[u8], _s: vec512_storage) -> Result<(), String> {
+    Ok(())
 }
 #[cfg(any(feature = "portable", miri))]
 fn storage128_extra(_a: &[u8], _s: vec128_storage) -> Result<(), String> {
